@@ -635,3 +635,319 @@ def oracle_c18(tables, seed, tier, deep):
 
 
 ORACLES["C18"] = oracle_c18
+
+
+# ------------------------------------------------------------------------------------------- C13
+
+def oracle_c13(tables, seed, tier, deep):
+    import itertools
+    big = tier == "thorough" or deep
+    rng = SplitMix(seed ^ 0x13)
+    alpha = "abcdefghijklmnopqrstuvwxyz0123456789_-$ "  # 40 symbols
+    names = [""]
+    for L in (1, 2, 3) if big else (1, 2):
+        names += ["".join(t) for t in itertools.product(alpha, repeat=L)]
+    extra = ["Ünï", "中文", "\U0001F600", "a" * 300, "user.address.zip", "a..b", ".", "$a.$b", "$$x", "system.users", "$cmd", "db.$cmd"]
+    for _ in range(3000 if big else 400):
+        extra.append("".join(rng.choice("abcXYZ019_.$-é") for _ in range(1 + rng.below(14))))
+    repls = ["REDACTED", "", "r.x_y", "é \"q\""]
+    ops = [("n%d" % i, ["hash", Cfg().s(), "s" + hx(n)]) for i, n in enumerate(names)]
+    for j, rp in enumerate(repls):
+        ops += [("e%d.%d" % (j, i), ["hash", Cfg(repl=rp).s(), "s" + hx(n)]) for i, n in enumerate(extra)]
+    r1 = go_exec(ops)
+    # a second, separate process with the calls in a different order
+    perm = list(ops)
+    for i in range(len(perm) - 1, 0, -1):
+        j = rng.below(i + 1)
+        perm[i], perm[j] = perm[j], perm[i]
+    r2 = go_exec(perm)
+    viol = []
+
+    def H(oid):
+        return unhx(r1[oid][1:])
+    if any(r1[o] != r2[o] for o, _ in ops):
+        bad = next(o for o, _ in ops if r1[o] != r2[o])
+        viol.append({"site": "unstable", "detail": "pseudonym differs between two processes / call orders: %r vs %r" % (r1[bad], r2[bad]), "input": bad})
+    # form + depth + dollar + component-wise
+    for j, rp in enumerate(repls):
+        blk = pyre.compile(pyre.escape(rp) + r"_[0-9a-f]{16}")
+        for i, n in enumerate(extra):
+            h = H("e%d.%d" % (j, i))
+            comps = n.lstrip("$").split(".")
+            pos, ok = 0, True
+            for ci in range(len(comps)):
+                m = blk.match(h, pos)
+                if not m:
+                    ok = False
+                    break
+                pos = m.end()
+                if ci < len(comps) - 1:
+                    if h[pos:pos + 1] != ".":
+                        ok = False
+                        break
+                    pos += 1
+            if not ok or pos != len(h):
+                viol.append({"site": "form", "detail": "pseudonym %r of %r is not %d blocks '<replacement>_<16 hex>' joined by '.'" % (h, n, len(comps)), "input": n, "cfg": Cfg(repl=rp).s()})
+    idx = {n: i for i, n in enumerate(extra)}
+    more = []
+    for i, n in enumerate(extra[:200]):
+        more.append(("d%d" % i, ["hash", Cfg().s(), "s" + hx("$" + n)]))
+        if "." in n.lstrip("$"):
+            for k, c in enumerate(n.lstrip("$").split(".")):
+                more.append(("c%d.%d" % (i, k), ["hash", Cfg().s(), "s" + hx(c)]))
+    r3 = go_exec(more)
+    for i, n in enumerate(extra[:200]):
+        h = H("e0.%d" % i)
+        if unhx(r3["d%d" % i][1:]) != h:
+            viol.append({"site": "dollar", "detail": "leading '$' changes the pseudonym of %r" % n, "input": n})
+        comps = n.lstrip("$").split(".")
+        if len(comps) > 1 and not any(c.startswith("$") for c in comps):
+            exp = ".".join(unhx(r3["c%d.%d" % (i, k)][1:]) for k in range(len(comps)))
+            if exp != h:
+                viol.append({"site": "componentwise", "detail": "P(%r) = %r is not the component-wise composition %r" % (n, h, exp), "input": n})
+    # enumeration (not a proof): distinct components -> distinct pseudonyms
+    seen = {}
+    for i, n in enumerate(names):
+        key = n.lstrip("$")
+        if "." in key:
+            continue
+        h = H("n%d" % i)
+        if h in seen and seen[h] != key:
+            viol.append({"site": "collision", "detail": "components %r and %r share the pseudonym %r" % (seen[h], key, h), "input": n})
+        seen[h] = key
+    return result(viol, 2 * len(ops) + len(more), len(seen), "HashName through the real function: all strings up to length %d over a 40-symbol alphabet (ENUMERATION of distinctness, not a proof) + generated/Unicode/dotted names x 4 replacement texts; two separate processes with permuted call orders; distinct_nontrivial = distinct components enumerated" % (3 if big else 2),
+                  {"names": len(names), "extra": len(extra)}, [{"name": "user.address.zip", "pseudonym": H("e0.%d" % extra.index("user.address.zip"))}])
+
+
+ORACLES["C13"] = oracle_c13
+
+
+# ------------------------------------------------------------------------------------------- C06 / C08 (streams)
+
+def mixed_lines(rng, n):
+    g = G(rng.fork())
+    out = []
+    for _ in range(n):
+        k = rng.below(10)
+        if k < 5:
+            out.append(to_json(G(rng.fork(), exotic=rng.chance(1, 3)).line()).encode())
+        elif k < 7:
+            out.append(to_json(other_line(rng)).encode())
+        elif k == 7:
+            out.append(rng.choice([b"", b" ", b"\t  "]))
+        elif k == 8:
+            out.append(rng.choice([b"not json at all", b"2024-05-01T12:00:00.000+0000 I NETWORK [conn] legacy", b"[1,2,3]", b'{"unterminated":', b'"str"', b"{} trailing"]))
+        else:
+            out.append(b'{"msg":"caf\xc3\xa9 \xe2\x82\xac","attr":{"v":[1.50,2e3,[[]]]}}')
+    return out
+
+
+def expected_stream(lines, cfg):
+    res = go_exec([(str(i), ["line", cfg.s(), hx(l)]) for i, l in enumerate(lines)])
+    out = []
+    for i in range(len(lines)):
+        r = res[str(i)]
+        out.append((unhxb(r[3:]) + b"\n") if r.startswith("ok ") else b"")
+    return out
+
+
+def oracle_c06(tables, seed, tier, deep):
+    import tempfile, shutil, gzip
+    big = tier == "thorough" or deep
+    rng = SplitMix(seed ^ 0x6)
+    viol = []
+    dist = collections.Counter()
+    n_in = 0
+    cfgs = [Cfg(), Cfg(n=True, b=True, i=True, w=True), Cfg(eager=("",)), Cfg(re="^a$")]
+    work = tempfile.mkdtemp(prefix="verif_c06_")
+    try:
+        for it in range(60 if big else 10):
+            cfg = cfgs[it % len(cfgs)]
+            A = mixed_lines(rng, 1 + rng.below(6))
+            B = mixed_lines(rng, 1 + rng.below(6))
+            eA, eB = expected_stream(A, cfg), expected_stream(B, cfg)
+            exp = b"".join(eA + eB)
+            variants = {}
+            for crlf in (False, True):
+                for final in (True, False):
+                    sep = b"\r\n" if crlf else b"\n"
+                    data = sep.join(A + B) + (sep if final else b"")
+                    if not final and (A + B)[-1] == b"":
+                        continue
+                    variants[(crlf, final)] = data
+            ops = [("%d.%d" % (int(k[0]), int(k[1])), ["stream", cfg.s(), "c%d" % rng.choice([1, 13, 4096, 70000]), hx(d)]) for k, d in variants.items()]
+            ops.append(("A", ["stream", cfg.s(), "-", hx(b"\n".join(A) + b"\n")]))
+            ops.append(("B", ["stream", cfg.s(), "-", hx(b"\n".join(B) + b"\n")]))
+            ops.append(("AB2", ["stream", cfg.s(), "-", hx(b"\n".join(A + B) + b"\n")]))
+            res = go_exec(ops)
+            n_in += len(ops)
+            outs = {}
+            for oid, _ in ops:
+                p = res[oid].split(" ")
+                outs[oid] = (p[0], unhxb(p[1]))
+                dist[p[0]] += 1
+            for oid, (st, o) in outs.items():
+                want = b"".join(eA) if oid == "A" else b"".join(eB) if oid == "B" else exp
+                if st != "ok" or o != want:
+                    viol.append({"site": "stream:" + ("split" if oid in ("A", "B") else "variant"), "detail": "variant %s: status %s, output differs from the line-by-line result (%d vs %d bytes)" % (oid, st, len(o), len(want)), "cfg": cfg.s(), "input_hex": hx(b"\n".join(A + B))})
+            if outs["A"][1] + outs["B"][1] != outs["AB2"][1]:
+                viol.append({"site": "stream:concat", "detail": "redact(A++B) != redact(A)++redact(B)", "cfg": cfg.s(), "input_hex": hx(b"\n".join(A + B))})
+            # whole program: 3 input channels x 2 output channels, twice
+            data = b"\n".join(A + B) + b"\n"
+            fplain, fgz = os.path.join(work, "in%d.log" % it), os.path.join(work, "in%d.log.gz" % it)
+            open(fplain, "wb").write(data)
+            with gzip.open(fgz, "wb") as fh:
+                fh.write(data)
+            got = {}
+            for rep in range(2):
+                for ch_in in ("file", "gz", "stdin"):
+                    for ch_out in ("stdout", "outfile"):
+                        args = ["redact"] + cfg.cli()
+                        stdin = None
+                        if ch_in == "file":
+                            args.append(fplain)
+                        elif ch_in == "gz":
+                            args.append(fgz)
+                        else:
+                            stdin = data
+                        of = os.path.join(work, "out_%d_%s_%s_%d" % (it, ch_in, ch_out, rep))
+                        if ch_out == "outfile":
+                            args += ["-o", of]
+                        rc, so, se = run_cli(args, stdin=stdin, cwd=work)
+                        n_in += 1
+                        o = open(of, "rb").read() if ch_out == "outfile" else so
+                        dist["cli-%s-%s" % (ch_in, ch_out)] += 1
+                        if rc != 0 or o != exp:
+                            viol.append({"site": "channel:%s:%s" % (ch_in, ch_out), "detail": "exit %d, output %s the in-process line-by-line result (%d vs %d bytes) %s" % (rc, "equals" if o == exp else "differs from", len(o), len(exp), se[-200:].decode("utf-8", "replace")),
+                                         "cfg": cfg.s(), "cli_flags": cfg.cli(), "input_hex": hx(data)})
+    finally:
+        shutil.rmtree(work, ignore_errors=True)
+    return result(viol, n_in, n_in, "multi-line inputs mixing command lines, other components, blank / whitespace-only / non-JSON / legacy text lines; in-process stream processor with chunked reads, LF and CRLF, with and without final newline, A / B / A++B; the real CLI on file / .gz / stdin x stdout / --outputFile, each twice; every output compared byte for byte with the per-line results",
+                  dist, [{"lines": 3}])
+
+
+def whole_line_prefix(got, exp_lines):
+    acc = b""
+    if got == b"":
+        return True
+    for l in exp_lines:
+        acc += l
+        if acc == got:
+            return True
+        if len(acc) > len(got):
+            return False
+    return False
+
+
+def oracle_c08(tables, seed, tier, deep):
+    import tempfile, shutil, gzip
+    big = tier == "thorough" or deep
+    rng = SplitMix(seed ^ 0x8)
+    viol = []
+    dist = collections.Counter()
+    n = 0
+    cfg = Cfg(n=True)
+    for it in range(30 if big else 6):
+        lines = [l for l in mixed_lines(rng, 2 + rng.below(5))]
+        data = b"\n".join(lines) + b"\n"
+        exp = expected_stream(lines, cfg)
+        nwrites = sum(1 for e in exp if e)
+        ops = []
+        ks = sorted(set([0, 1, len(data) - 1, len(data)] + [rng.below(len(data) + 1) for _ in range(40 if big else 12)]))
+        for k in ks:
+            ops.append(("r%d" % k, ["stream", cfg.s(), "c%d,r%d" % (rng.choice([1, 64, 4096]), k), hx(data)], ("r", k)))
+        for k in range(nwrites + 1):
+            ops.append(("w%d" % k, ["stream", cfg.s(), "w%d" % k, hx(data)], ("w", k)))
+            ops.append(("s%d" % k, ["stream", cfg.s(), "s%d" % k, hx(data)], ("s", k)))
+        res = go_exec([(o[0], o[1]) for o in ops])
+        n += len(ops)
+        for oid, f, (kind, k) in ops:
+            p = res[oid].split(" ")
+            st, out = p[0], unhxb(p[1])
+            reached = ("r=true" in res[oid]) or ("w=true" in res[oid])
+            dist[kind + ":" + st] += 1
+            if reached and st == "ok":
+                viol.append({"site": "fault:%s:reported-ok" % kind, "detail": "fault %s%d was reached but the stream processor returned success" % (kind, k), "cfg": cfg.s(), "input_hex": hx(data), "faults": f[2]})
+            if not reached and st != "ok":
+                viol.append({"site": "fault:%s:spurious" % kind, "detail": "no fault reached but status %s" % st, "cfg": cfg.s(), "input_hex": hx(data), "faults": f[2]})
+            body = out
+            if kind == "s" and reached:
+                # a short write leaves part of one line: only what precedes the failing write is judged
+                last_nl = out.rfind(b"\n")
+                body = out[: last_nl + 1] if not whole_line_prefix(out, [e for e in exp if e]) else out
+            if kind == "r" and reached:
+                # the partial last token may be a complete line of the input cut exactly at its end
+                pass
+            if not whole_line_prefix(body, [e for e in exp if e]):
+                viol.append({"site": "fault:%s:not-a-prefix" % kind, "detail": "bytes written before the fault are not a whole-line prefix of the fault-free output", "cfg": cfg.s(), "input_hex": hx(data), "faults": f[2]})
+    # whole program: real devices and damaged gzip streams
+    work = tempfile.mkdtemp(prefix="verif_c08_")
+    try:
+        lines = mixed_lines(rng, 8)
+        lines = [l for l in lines]
+        data = b"\n".join(lines) + b"\n"
+        exp = expected_stream(lines, Cfg())
+        fplain = os.path.join(work, "in.log")
+        open(fplain, "wb").write(data)
+        if any(exp):
+            rc, so, se = run_cli(["redact", fplain, "-o", "/dev/full"], cwd=work)
+            n += 1
+            dist["cli-outfile-devfull:%d" % rc] += 1
+            if rc == 0:
+                viol.append({"site": "device:/dev/full:-o", "detail": "-o /dev/full: every write fails, exit status 0", "input_hex": hx(data)})
+            with open("/dev/full", "wb") as full:
+                e = dict(os.environ)
+                e.pop("VERIF_HARNESS", None)
+                p = subprocess.run([harness_bin(), "redact", fplain], stdin=subprocess.DEVNULL, stdout=full, stderr=subprocess.PIPE, env=e, cwd=work)
+            n += 1
+            dist["cli-stdout-devfull:%d" % p.returncode] += 1
+            if p.returncode == 0:
+                viol.append({"site": "device:/dev/full:stdout", "detail": "> /dev/full: every write fails, exit status 0", "input_hex": hx(data)})
+            # closed pipe
+            e = dict(os.environ)
+            e.pop("VERIF_HARNESS", None)
+            bigdata = data * 2000
+            fb = os.path.join(work, "big.log")
+            open(fb, "wb").write(bigdata)
+            p = subprocess.Popen([harness_bin(), "redact", fb], stdin=subprocess.DEVNULL, stdout=subprocess.PIPE, stderr=subprocess.PIPE, env=e, cwd=work)
+            p.stdout.read(10)
+            p.stdout.close()
+            p.wait(timeout=60)
+            n += 1
+            dist["cli-closed-pipe:%d" % p.returncode] += 1
+            if p.returncode == 0:
+                viol.append({"site": "device:closed-pipe", "detail": "stdout closed by the reader, exit status 0", "input_hex": hx(data[:200])})
+        gzdata = gzip.compress(data)
+        cuts = sorted(set([0, 1, 5, 10, len(gzdata) - 1, len(gzdata) - 4, len(gzdata) - 8] + [rng.below(len(gzdata)) for _ in range(60 if big else 12)]))
+        explines = [e for e in exp if e]
+        for k in cuts:
+            if k < 0:
+                continue
+            fz = os.path.join(work, "cut%d.log.gz" % k)
+            open(fz, "wb").write(gzdata[:k])
+            rc, so, se = run_cli(["redact", fz], cwd=work)
+            n += 1
+            dist["gz-cut:%d" % (rc != 0)] += 1
+            if rc == 0:
+                viol.append({"site": "gzip:cut:exit0", "detail": "gzip stream cut at byte %d of %d: exit status 0" % (k, len(gzdata)), "input_hex": hx(gzdata[:k])})
+            if not whole_line_prefix(so, explines):
+                viol.append({"site": "gzip:cut:not-a-prefix", "detail": "gzip stream cut at byte %d: output is not a whole-line prefix of the fault-free output" % k, "input_hex": hx(gzdata[:k]), "output": so[-300:].decode("utf-8", "replace")})
+        for _ in range(40 if big else 10):
+            k = rng.below(len(gzdata))
+            b = bytearray(gzdata)
+            b[k] ^= 1 << rng.below(8)
+            fz = os.path.join(work, "flip.log.gz")
+            open(fz, "wb").write(bytes(b))
+            rc, so, se = run_cli(["redact", fz], cwd=work)
+            n += 1
+            dist["gz-flip:%d" % (rc != 0)] += 1
+            if rc == 0 and so != b"".join(exp):
+                viol.append({"site": "gzip:flip:exit0", "detail": "bit flipped at byte %d: exit status 0 with output different from the fault-free output" % k, "input_hex": hx(bytes(b))})
+    finally:
+        shutil.rmtree(work, ignore_errors=True)
+    return result(viol, n, n, "fault injection: the k-th read fails (sampled k, chunked reads), the k-th write fails or is short (every k), in-process; /dev/full as stdout and as --outputFile, a closed pipe, gzip streams cut at sampled byte offsets and with flipped bits through the real CLI; status must be an error iff a fault was reached, bytes written must be a whole-line prefix of the fault-free output",
+                  dist, [{"fault": "r17"}])
+
+
+ORACLES["C06"] = oracle_c06
+ORACLES["C08"] = oracle_c08
